@@ -241,31 +241,52 @@ def run(ctx):
     paths = ctx.paths(FR)
     body = ctx.body(FR)
     if paths:
-        # state variables by role: `indexes` is the vector returned in Ok(..), `buffer` the String handed to str_to_index
+        # state by role: `indexes` is the vector returned in Ok(..), `buffer` the String handed to str_to_index.  Each is a local, or a field of a
+        # local struct that the loop's helpers (inlined) work on; a field is keyed by its name because a by-value `finish(self)` moves the struct
         names = {}
+        bases = set()
+
+        def place_key(t):
+            for _ in range(4):
+                if isinstance(t, tuple) and t and t[0] in ("ref", "refmut"):
+                    t = t[1]
+            if not isinstance(t, tuple) or not t:
+                return None
+            if t[0] in ("loc", "havoc", "mutated"):
+                return ("loc", t[1])
+            if t[0] == "field" and isinstance(t[1], tuple) and t[1] and t[1][0] in ("loc", "havoc", "mutated"):
+                return ("fld", t[3])
+            return None
+
+        def note_role(t, role):
+            k = place_key(t)
+            if k is not None:
+                names[k] = role
+                if k[0] == "fld" and t[1][1] >= 0:
+                    bases.add(t[1][1])
         for p_ in paths:
             if p_.end[0] == "return" and unwrap_ok(p_.end[1]) is not None:
                 r_ = unwrap_ok(p_.end[1])
-                if isinstance(r_, tuple) and r_[0] in ("havoc", "mutated"):
-                    names[r_[1]] = "indexes"
+                if isinstance(r_, tuple) and (r_[0] in ("havoc", "mutated") or r_[0] == "field"):
+                    note_role(r_, "indexes")
             for e_ in p_.calls("ScanIndex::str_to_index"):
                 for s_ in subterms(e_.args[0]):
-                    if s_[0] in ("havoc", "mutated") and body.f["locals"][s_[1]]["ty"] == "std::string::String":
-                        names[s_[1]] = "buffer"
+                    if s_[0] in ("havoc", "mutated") and 0 <= s_[1] < len(body.f["locals"]) and body.f["locals"][s_[1]]["ty"] == "std::string::String":
+                        note_role(s_, "buffer")
+                    elif s_[0] == "field" and place_key(s_) is not None and place_key(s_)[0] == "fld" and strip_refs(e_.args[0]) == s_:
+                        note_role(s_, "buffer")
 
         def on(e, nm):
             a = e.args[0] if e.args else None
-            return isinstance(a, tuple) and a[0] == "refmut" and isinstance(a[1], tuple) and a[1][0] == "loc" and names.get(a[1][1]) == nm
+            return isinstance(a, tuple) and a[0] == "refmut" and names.get(place_key(a)) == nm
 
         def is_buffer_empty_test(t):
             # buffer.is_empty(), directly or on a &str view of it (a helper taking the buffer as &str)
             if not is_call(t, "String::is_empty", "str>::is_empty"):
                 return False
             a = strip_refs(call_args(t)[0])
-            for _ in range(3):
-                if is_call(a, "Deref>::deref", "String::as_str", "AsRef", "Borrow"):
-                    a = strip_refs(call_args(a)[0])
-            return isinstance(a, tuple) and a[0] in ("havoc", "mutated") and names.get(a[1]) == "buffer"
+            return names.get(place_key(a)) == "buffer"
+        if os.environ.get("VERIF_DEBUG"): print("C16 names", names, bases)
         backs = [p for p in paths if p.end[0] == "back"]
         ctx.floor("D2-SEGMENT", FR, "loop back-edge paths", len(backs), 3)
         kinds = set()
@@ -302,7 +323,7 @@ def run(ctx):
                           "after an in-loop emit the buffer is not cleared before the next line is appended: the next record inherits this record's lines", body.span_of(emits[0].bb))
                 src = emits[0].args[1]
                 oks = bool(find_calls(src, "ScanIndex::str_to_index")) and has_try(src) and \
-                    any(names.get(s[1]) == "buffer" for s in subterms(src) if s[0] in ("havoc", "mutated"))
+                    any(names.get(place_key(s)) == "buffer" for s in subterms(src) if s[0] in ("havoc", "mutated", "field"))
                 ctx.check(oks, "D2-SEGMENT", FR, "emit-source", "emits str_to_index(&buffer)?", "the emitted record is not str_to_index(&buffer)?", body.span_of(emits[0].bb))
             else:
                 kinds.add("keep")
@@ -330,10 +351,10 @@ def run(ctx):
                 ctx.check(len(emits) == 1 and bool(find_calls(emits[0].args[1], "ScanIndex::str_to_index")), "D2-SEGMENT", FR, "final-emit", "the last record is emitted at end of input",
                           "the buffered last record is not emitted at end of input", fn_span(body))
             r = unwrap_ok(p.end[1])
-            ctx.check(isinstance(r, tuple) and r[0] in ("havoc", "mutated") and names.get(r[1]) == "indexes", "D3-RETURN", FR, "returns-indexes", "Ok(indexes)", "the Ok value is not the vector the records were pushed to", fn_span(body), nontrivial=False)
+            ctx.check(isinstance(r, tuple) and r[0] in ("havoc", "mutated", "field") and names.get(place_key(r)) == "indexes", "D3-RETURN", FR, "returns-indexes", "Ok(indexes)", "the Ok value is not the vector the records were pushed to", fn_span(body), nontrivial=False)
         ctx.check(saw_final, "D2-SEGMENT", FR, "final-arm", "end-of-input emit exists", "no end-of-input emit: the last record is lost", fn_span(body), nontrivial=False)
-        idxl = {l for l, n_ in names.items() if n_ == "indexes"}
-        only_appended(ctx, "D3-RETURN", FR, "indexes", lambda t: isinstance(t, tuple) and t[0] == "loc" and t[1] in idxl, floor=2)
+        # (a call handed the whole state struct mutably, and not inlined, may change the vector too)
+        only_appended(ctx, "D3-RETURN", FR, "indexes", lambda t: names.get(place_key(t)) == "indexes" or (isinstance(t, tuple) and t[0] == "loc" and t[1] in bases), floor=2)
         errprop(ctx, FR, paths, body, rule="D3-ERRPROP", no_effects_after_error=("Vec::push",), floor=2)
     STI = "scanindex::ScanIndex::str_to_index"
     paths = ctx.paths(STI, desugar=True)     # `deserialize(..).map_err(f)` returned as it is and `Ok(deserialize(..).map_err(f)?)` are the same paths once evaluated
@@ -351,6 +372,7 @@ def run(ctx):
         VK = vk[0]
         paths = ctx.paths(VK)
         body = ctx.body(VK)
+        if os.environ.get("VERIF_DEBUG"): print("C16 names", names, bases)
         backs = [p for p in paths if p.end[0] == "back"]
         ins_seen = skip_seen = False
         for p in backs:
